@@ -86,7 +86,7 @@ V, R, OPRE, OPOST, MRES, C, NS = "V", "R", "OPRE", "OPOST", "MRES", "C", "NS"
 # membership-relevant validator output (set items, dict keys): membership in
 # the pre-state unknown / known absent / known present; ODIFF = post-state
 # minus a pre-state snapshot
-VMQ, VMN, VMP, ODIFF = "VM?", "VM-", "VM+", "ODIFF"
+VMQ, VMN, VMP, ODIFF, RDIFF = "VM?", "VM-", "VM+", "ODIFF", "RDIFF"
 MEMBER_VALIDATOR = {"set": "item_validator", "dict": "key_validator"}
 # phases
 PRE, POST, DONE = "pre", "post", "notified"
@@ -324,6 +324,9 @@ class MutatorFlow(PyFlow):
                 return out or frozenset([C])
             if isinstance(f, ast.Attribute):
                 recv = P(f.value)
+                if f.attr == "difference" and phase != PRE and OPRE in recv \
+                        and any(OPOST in P(a) for a in e.args):
+                    return frozenset([RDIFF])   # snapshot minus post-state
                 if f.attr in ("difference", "intersection") and any(
                         OPRE in P(a) for a in e.args) and VMQ in recv:
                     return (recv - {VMQ}) | {
@@ -518,6 +521,14 @@ class MutatorFlow(PyFlow):
                               f"`added` argument `{norm(a)}` of notify() "
                               f"derives from {sorted(bad)} (must be validator "
                               f"output or a post-mutation read)")
+                if self.kind == "set" and self.func.name in SET_INPLACE_OPS \
+                        and lab & {OPRE, VMQ, VMN, VMP, V} \
+                        and "#setop" not in env:
+                    self.flag(("delta-args", "predicted", norm(a)),
+                              f"`added` argument `{norm(a)}` of notify() is "
+                              f"predicted from the operand although the "
+                              f"built-in set.{self.func.name} refuses "
+                              f"operands that are not sets")
                 stale = lab & {VMQ, VMP}
                 if self.kind == "set":
                     stale |= lab & {OPOST}
@@ -533,6 +544,20 @@ class MutatorFlow(PyFlow):
                               f"self`) - a transforming validator can map a "
                               f"new value onto an existing member")
             elif role == "removed":
+                if self.kind == "set" and self.func.name in SET_INPLACE_OPS \
+                        and lab & {OPRE, VMQ, VMN, VMP, V} \
+                        and "#setop" not in env:
+                    self.flag(("delta-args", "predicted", norm(a)),
+                              f"`removed` argument `{norm(a)}` of notify() "
+                              f"is *predicted* from the pre-state and the "
+                              f"operand, but the built-in "
+                              f"set.{self.func.name} refuses operands that "
+                              f"are not sets (returns NotImplemented, the "
+                              f"set stays unchanged): on that path the "
+                              f"event announces removals that never "
+                              f"happened. Compare a snapshot with the "
+                              f"result, or predict only under "
+                              f"isinstance(value, (set, frozenset))")
                 if OPOST in lab:
                     self.flag(("delta-args", "removed", norm(a)),
                               f"`removed` argument `{norm(a)}` of notify() is "
@@ -568,6 +593,16 @@ class MutatorFlow(PyFlow):
 
     def assume(self, test, truth, state):
         state = self.refine_membership(test, truth, state)
+        if truth and isinstance(test, ast.Call) \
+                and isinstance(test.func, ast.Name) \
+                and test.func.id == "isinstance" and len(test.args) == 2 \
+                and isinstance(test.args[0], ast.Name) \
+                and {"set", "frozenset"} <= {
+                    n.id for n in ast.walk(test.args[1])
+                    if isinstance(n, ast.Name)}:
+            env = self.env_of(state)
+            env["#setop"] = frozenset([C])
+            state = self.mk(state[0], env)
         # isinstance(<param>, (set, frozenset)) is False: operand is not a set
         if not truth and isinstance(test, ast.Call) \
                 and isinstance(test.func, ast.Name) \
@@ -1372,9 +1407,61 @@ def c04_validator_binding(ctx, res):
     res.floor(4)
 
 
+# When may a Trait*Object validator hand the element back unvalidated?  The
+# three classes differ on the pinned tree (confirmed by reading); the table
+# freezes each one's policy so that a change of policy is reported.
+#   attr-missing       the attribute is not there yet (object being unpickled)
+#   owner-dead         the owning HasTraits object is None / collected
+#   no-inner-validator the inner trait has no validate (Any)
+PASS_THROUGH_POLICY = {
+    "TraitListObject._item_validator": {"owner-dead", "no-inner-validator"},
+    "TraitDictObject._key_validator": {"attr-missing", "owner-dead",
+                                       "no-inner-validator"},
+    "TraitDictObject._value_validator": {"attr-missing", "owner-dead",
+                                         "no-inner-validator"},
+    "TraitSetObject._validator": {"attr-missing", "no-inner-validator"},
+}
+
+
+def _none_subject_kind(meth, selfn, text):
+    """classify the subject of a `<subject> is None` fact"""
+    subj = text[:-len(" is None")].strip()
+    try:
+        e = ast.parse(subj, mode="eval").body
+    except SyntaxError:
+        return "?"
+    for _ in range(4):
+        if isinstance(e, ast.Name):
+            d = _resolve_alias(meth, e.id)
+            if d is None:
+                break
+            e = d
+        else:
+            break
+    t = norm(e)
+    if t.endswith(".validate"):
+        return "no-inner-validator"
+    if isinstance(e, ast.Call):
+        f = e.func
+        if isinstance(f, ast.Name) and f.id == "getattr" and len(e.args) >= 2 \
+                and norm(e.args[0]) == selfn:
+            return "attr-missing"
+        # a call of the stored reference: self.object() / ref() /
+        # getattr(self, 'object', ...)()
+        return "owner-dead"
+    if isinstance(e, ast.Attribute) and norm(e.value) == selfn:
+        return "attr-missing"
+    return "?"
+
+
 def _check_validator_method(res, mod, obj, meth, inner, key):
     ps = [a.arg for a in meth.args.args]
     selfn, valn = ps[0], ps[1]
+    qual = f"{obj.name}.{meth.name}"
+    policy = PASS_THROUGH_POLICY.get(qual)
+    if policy is None:
+        raise AnalysisError(f"{qual}: no pass-through policy row (new "
+                            f"validator method: read it and add one)")
     fl = ReturnFlow(mod, meth, f"{obj.name}.{meth.name}")
     fl.run(frozenset())
     validated_returns = 0
@@ -1388,6 +1475,16 @@ def _check_validator_method(res, mod, obj, meth, inner, key):
                        f"{meth.name} returns the unvalidated `{valn}` on a "
                        f"path where neither the owner, the trait nor its "
                        f"validate is None")
+            kinds = {_none_subject_kind(meth, selfn, f[1]) for f in facts
+                     if f[0] == "T" and f[1].endswith(" is None")}
+            extra = sorted(kinds - policy)
+            res.oblige(not extra, f"{key}:{meth.name}:pass-through-policy",
+                       mod.loc(ret),
+                       f"{qual} hands `{valn}` back unvalidated when "
+                       f"{extra} - on the pinned tree it does so only for "
+                       f"{sorted(policy)}: e.g. a deep-copied "
+                       f"{obj.name[5:-6].lower()} (owner None) would stop "
+                       f"validating its items")
             continue
         # must be <something resolving to X.<inner>.validate>(obj, name, value)
         ok = False
@@ -1488,6 +1585,24 @@ def refine_rule(kind):
             for key, msg, loc, path in [f for f in fl.findings()
                                         if f[0][0] == "second-mutation"]:
                 res.violation(f"{fl.qualname}:second-mutation", loc, msg, path)
+            # no detour through a *different* overridden mutator of the same
+            # object: the built-in operation's own argument checks, results
+            # and exceptions (TypeError for a non-integer multiplier, ...)
+            # are inherited only when that very operation is invoked
+            for n in ast.walk(fl.func):
+                if isinstance(n, ast.Call) and isinstance(n.func, ast.Attribute) \
+                        and isinstance(n.func.value, ast.Name) \
+                        and n.func.value.id == fl.selfname \
+                        and n.func.attr in MUTATORS[kind] \
+                        and n.func.attr != m:
+                    res.violation(
+                        f"{fl.qualname}:via-other-mutator:{n.func.attr}",
+                        fl.module.loc(n),
+                        f"{fl.qualname} performs (part of) its work through "
+                        f"self.{n.func.attr}() instead of the built-in "
+                        f"{kind}.{want}: inputs the built-in rejects (or "
+                        f"treats differently) are no longer handled like "
+                        f"{kind}.{m} handles them")
         res.floor(len(MUTATORS[kind]))
     return _r
 
